@@ -257,7 +257,7 @@ theorem lfFileOf_ok (v : Version) (m : Meta) (sm : List Nat) (rows sh : Nat) (f 
     (h : lfFileOf v m sm rows sh = .ok f) :
     f.rows = rows ∧ f.sh = sh ∧ f.nbytes = f.rows * f.chns.length * 2 ∧
       f.chns = shankChns sm sh m.nSavedChans m.sns.2.2 ∧
-      f.md = writeMetaLf v m f.chns.length f.nbytes f.sh := by
+      f.md = writeMetaLf v m f.chns f.nbytes f.sh := by
   unfold lfFileOf splitWidth at h
   by_cases hc : ((shankChns sm sh m.nSavedChans m.sns.2.2).all
       (fun x => decide (x < chunkWidth m.sns.1 m.nSavedChans))) = true
